@@ -86,7 +86,7 @@ use super::posix::fcntl_set_cloexec;
             &&& peer(rd.obj@) == wr.obj@ && peer(wr.obj@) == rd.obj@ && is_read_end(rd.obj@) && !is_read_end(wr.obj@) && rd.obj@ != wr.obj@
             &&& lib_created(rd.obj@) && lib_created(wr.obj@) && rd.fd >= 3 && wr.fd >= 3
             &&& !old(w).s.inheritable.contains(rd.obj@) && !old(w).s.cloexec.contains(rd.obj@) && !old(w).s.inheritable.contains(wr.obj@) && !old(w).s.cloexec.contains(wr.obj@)
-            &&& final(w).s == (SW { inheritable: old(w).s.inheritable.insert(rd.obj@).insert(wr.obj@), ..old(w).s })
+            &&& final(w).s == (SW { cloexec: old(w).s.cloexec.insert(rd.obj@).insert(wr.obj@), ..old(w).s })
         },
         Err(e) => final(w).s == old(w).s,
     }
@@ -102,6 +102,7 @@ impl Popen {
         user_file_ok(stdin), user_file_ok(stdout), user_file_ok(stderr), lib_only(old(w).s),
     ensures
         lib_only(final(w).s),
+        forall|o: int| #![trigger final(w).s.inheritable.contains(o)] #![trigger old(w).s.inheritable.contains(o)] final(w).s.inheritable.contains(o) ==> old(w).s.inheritable.contains(o), //[C08]
         // invalid combinations are refused with a logic error
         stdin is Merge ==> res is Err, //[C05]
         stdout is Merge && stderr is Merge ==> res is Err, //[C05]
@@ -121,7 +122,7 @@ impl Popen {
             &&& ends_ok(res->Ok_0)
             // C08: the parent's ends are close-on-exec; the only new inheritable library pipe ends are the child's own ends
             &&& parent_end_cloexec(final(self).stdin, final(w).s) && parent_end_cloexec(final(self).stdout, final(w).s) && parent_end_cloexec(final(self).stderr, final(w).s) //[C08]
-            &&& (forall|o: int| #![trigger final(w).s.inheritable.contains(o)] #![trigger old(w).s.inheritable.contains(o)] final(w).s.inheritable.contains(o) ==> old(w).s.inheritable.contains(o) || is_pipe_child_end(o, *final(self))) //[C08]
+            &&& (forall|o: int| #![trigger final(w).s.inheritable.contains(o)] #![trigger old(w).s.inheritable.contains(o)] final(w).s.inheritable.contains(o) ==> old(w).s.inheritable.contains(o)) //[C08]
             &&& (forall|o: int| #![trigger final(w).s.cloexec.contains(o)] #![trigger old(w).s.cloexec.contains(o)] old(w).s.cloexec.contains(o) ==> final(w).s.cloexec.contains(o))
             &&& (forall|o: int| #![trigger final(w).s.inheritable.contains(o)] #![trigger old(w).s.inheritable.contains(o)] old(w).s.inheritable.contains(o) ==> final(w).s.inheritable.contains(o))
             // the new parent ends are new: they were not in the table before
@@ -131,6 +132,7 @@ impl Popen {
         requires !old(w).s.in_child,
         ensures
             lib_only(old(w).s) ==> lib_only(final(w).s),
+            forall|o: int| #![trigger final(w).s.inheritable.contains(o)] #![trigger old(w).s.inheritable.contains(o)] final(w).s.inheritable.contains(o) ==> old(w).s.inheritable.contains(o),
             final(w).s.want == old(w).s.want && final(w).s.status_read_failed == old(w).s.status_read_failed,
             final(w).s.forks == old(w).s.forks && !final(w).s.in_child && final(w).s.child_unreaped == old(w).s.child_unreaped && final(w).s.launch == old(w).s.launch,
             r is Ok ==> final(parent_ref).is_some() && final(child_ref).is_some()
@@ -140,8 +142,8 @@ impl Popen {
                     && final(child_ref).unwrap().obj@ != final(parent_ref).unwrap().obj@
                     && !old(w).s.inheritable.contains(final(child_ref).unwrap().obj@) && !old(w).s.cloexec.contains(final(child_ref).unwrap().obj@)
                     && !old(w).s.inheritable.contains(final(parent_ref).unwrap().obj@) && !old(w).s.cloexec.contains(final(parent_ref).unwrap().obj@)
-                    && final(w).s.inheritable == old(w).s.inheritable.insert(final(child_ref).unwrap().obj@)
-                    && final(w).s.cloexec == old(w).s.cloexec.insert(final(parent_ref).unwrap().obj@),
+                    && final(w).s.inheritable == old(w).s.inheritable
+                    && final(w).s.cloexec == old(w).s.cloexec.insert(final(parent_ref).unwrap().obj@).insert(final(child_ref).unwrap().obj@),
 //@endnested
 //@nested prepare_file world=mut
         requires !old(w).s.in_child, !lib_created(file.obj@),
@@ -217,7 +219,10 @@ impl Popen {
         // the Popen exposes a parent-side handle exactly for the piped streams
         r is Ok ==> final(self).stdin.is_some() == (config.stdin is Pipe) && final(self).stdout.is_some() == (config.stdout is Pipe) && final(self).stderr.is_some() == (config.stderr is Pipe), //[C05]
         // C08: at the fork, the only inheritable library-created pipe ends were the child's own ends of this spawn's pipes
-        final(w).s.forks == old(w).s.forks + 1 ==> (forall|o: int| #[trigger] final(w).s.at_fork_inheritable.contains(o) ==> old(w).s.inheritable.contains(o) || is_pipe_child_end(o, *final(self))), //[C08]
+        // C08: at the fork NO pipe end created by this call was inheritable -- not even the child's own ends (they reach the child through dup2,
+        // which does not copy the close-on-exec flag): a child forked concurrently by another thread cannot keep any of them past its exec
+        final(w).s.forks == old(w).s.forks + 1 ==> (forall|o: int| #[trigger] final(w).s.at_fork_inheritable.contains(o) ==> old(w).s.inheritable.contains(o)), //[C08]
+        forall|o: int| #[trigger] final(w).s.inheritable.contains(o) ==> old(w).s.inheritable.contains(o), //[C08]
         // C08: what the parent keeps is close-on-exec
         r is Ok ==> parent_end_cloexec(final(self).stdin, final(w).s) && parent_end_cloexec(final(self).stdout, final(w).s) && parent_end_cloexec(final(self).stderr, final(w).s), //[C08]
 //@end
